@@ -1,4 +1,189 @@
 package corpus
 
-// Random returns n seeded grammars that are LL(1) by construction.
-func Random(seed uint64, n int) []*Grammar { return nil }
+import (
+	"fmt"
+
+	"verifsim/internal/prng"
+)
+
+// Random returns n seeded grammars that are LR(1) by construction, without
+// consulting gocc: every alternative of an ordinary nonterminal starts with a
+// terminal that no other alternative of that nonterminal starts with (LL(1));
+// a nullable nonterminal and a left-recursive list nonterminal are always
+// followed, wherever they occur, by a closing terminal dedicated to them.
+// They are marked Optional: a check drops one that gocc refuses instead of
+// failing (the construction is believed right, but a workload grammar is not
+// worth a false alarm).
+func Random(seed uint64, n int) []*Grammar {
+	var out []*Grammar
+	for i := 0; i < n; i++ {
+		out = append(out, randomGrammar(prng.Sub(seed, "rnd-grammar", i), fmt.Sprintf("rnd%d", i)))
+	}
+	return out
+}
+
+var litPool = []string{"(", ")", "[", "]", "{", "}", ";", ",", ":", "=", "+", "-", "*", "/", "<", ">", "!", "?", "@", "#", "&", "|", "~", "^",
+	"kwa", "kwb", "kwc", "kwd", "kwe", "kwf", "kwg", "kwh", "kwi", "kwj", "kwk", "kwl", "kwm", "kwn", "kwo", "kwp", "kwq", "kwr", "kws", "kwt",
+	"->", "=>", "::", "..", "<-", "||", "&&", "==", "!=", "<=", ">=", "++", "--", "**", "%%", "$", "%", "§", "λ", "→"}
+
+func randomGrammar(r *prng.R, id string) *Grammar {
+	g := &Grammar{ID: id, Optional: true, Seps: wsSeps,
+		Lex: append(letters(),
+			LexDef{Kind: LexToken, Name: "id", Pattern: `('x' | 'y' | 'z') {_letter | _digit}`, Samples: []string{"x", "yy", "z9q", "xK"}},
+			LexDef{Kind: LexToken, Name: "num", Pattern: `_digit {_digit}`, Samples: []string{"0", "31", "400"}},
+			ws())}
+	pool := append([]string{}, litPool...)
+	prng.Shuffle(r, pool)
+	next := 0
+	fresh := func() Sym {
+		s := pool[next%len(pool)]
+		if next >= len(pool) {
+			s = fmt.Sprintf("kz%d", next)
+		}
+		next++
+		return Sym{Kind: Lit, Name: s}
+	}
+	k := 3 + r.Intn(6)
+	type ntInfo struct {
+		name   string
+		kind   int // 0 ordinary, 1 nullable, 2 list
+		closer Sym
+		sep    Sym
+	}
+	nts := make([]*ntInfo, k)
+	for i := range nts {
+		nts[i] = &ntInfo{name: fmt.Sprintf("N%c", 'a'+i)}
+		if i > 0 && i < k-1 {
+			switch x := r.Intn(10); {
+			case x < 3:
+				nts[i].kind = 1
+			case x < 5:
+				nts[i].kind = 2
+			}
+		} else if i == k-1 && i > 0 && r.Chance(1, 4) {
+			nts[i].kind = 1
+		}
+		if nts[i].kind != 0 {
+			nts[i].closer = fresh()
+			nts[i].sep = fresh()
+		}
+	}
+	var shared []Sym // literals usable in non-leading positions
+	for i := 0; i < 4; i++ {
+		shared = append(shared, fresh())
+	}
+	// ref appends a reference to nonterminal j (plus its closer)
+	ref := func(body []Sym, j int) []Sym {
+		body = append(body, Sym{Kind: NT, Name: nts[j].name})
+		if nts[j].kind != 0 {
+			body = append(body, nts[j].closer)
+		}
+		return body
+	}
+	terminal := func() Sym {
+		switch r.Intn(4) {
+		case 0:
+			return Sym{Kind: Tok, Name: "id"}
+		case 1:
+			return Sym{Kind: Tok, Name: "num"}
+		default:
+			return prng.Pick(r, shared)
+		}
+	}
+	action := func(syms []Sym, isErr bool) Action {
+		n := len(syms)
+		if n == 0 {
+			switch r.Intn(3) {
+			case 0:
+				return Action{}
+			case 1:
+				return Call()
+			default:
+				return CallCtx()
+			}
+		}
+		switch x := r.Intn(10); {
+		case x < 2:
+			return Action{}
+		case x < 3:
+			return Pass(r.Intn(n))
+		}
+		var args []ArgRef
+		for i := 0; i < n; i++ {
+			if r.Chance(2, 3) {
+				a := ArgRef{Index: i}
+				if syms[i].Kind != NT && r.Chance(1, 3) {
+					a.AsToken = true
+				}
+				args = append(args, a)
+			}
+		}
+		if r.Chance(1, 4) && len(args) > 1 {
+			prng.Shuffle(r, args)
+		}
+		if r.Chance(1, 5) {
+			return CallCtx(args...)
+		}
+		return Call(args...)
+	}
+	for i, nt := range nts {
+		p := &Prod{Head: nt.name}
+		if nt.kind == 2 {
+			// left-recursive list over a higher-index nonterminal
+			j := i + 1 + r.Intn(k-i-1)
+			elem := ref(nil, j)
+			rec := append([]Sym{{Kind: NT, Name: nt.name}, nt.sep}, elem...)
+			p.Alts = append(p.Alts, &Alt{Syms: elem}, &Alt{Syms: rec})
+			for _, a := range p.Alts {
+				a.Action = action(a.Syms, false)
+			}
+			g.Prods = append(g.Prods, p)
+			continue
+		}
+		nalts := 1 + r.Intn(4)
+		lead := map[string]bool{}
+		for a := 0; a < nalts; a++ {
+			var l Sym
+			for tries := 0; ; tries++ {
+				if r.Chance(1, 4) && tries < 3 {
+					l = terminal()
+				} else {
+					l = fresh()
+				}
+				key := fmt.Sprint(l.Kind, l.Name)
+				if !lead[key] {
+					lead[key] = true
+					break
+				}
+			}
+			body := []Sym{l}
+			n := r.Intn(5)
+			if a == 0 && i+1 < k {
+				// chain: alternative 0 mentions the next nonterminal (reachability) and
+				// only higher-index ones (finite height)
+				body = ref(body, i+1)
+			}
+			for s := 0; s < n && len(body) < 11; s++ {
+				if r.Chance(1, 2) {
+					body = append(body, terminal())
+					continue
+				}
+				lo := 0
+				if a == 0 {
+					lo = i + 1
+				}
+				if lo >= k {
+					body = append(body, terminal())
+					continue
+				}
+				body = ref(body, lo+r.Intn(k-lo))
+			}
+			p.Alts = append(p.Alts, &Alt{Syms: body, Action: action(body, false)})
+		}
+		if nt.kind == 1 {
+			p.Alts = append(p.Alts, &Alt{Action: action(nil, false)})
+		}
+		g.Prods = append(g.Prods, p)
+	}
+	return g.Finish()
+}
